@@ -55,6 +55,19 @@ func init() {
 	meta("C02", "exploration", seqTech+"restart as a generated step with an independently drawn reader configuration; dump before Close == dump after Open",
 		NontrivialRuleText["C02"], 12000, 400000,
 		[]string{"restarts", "restart_config_changed", "restart_file_end_near_boundary", "restart_file_end_on_boundary", "restarts_after_merge", "batches", "rotations"})
+	crashTech := "deterministic simulation with fault injection: the workload runs once on the journalling disk, then the directory is rebuilt as of every journal position (process crash) and, for a seeded subset, with unsynced file tails cut (power loss); the real Open runs on each image; "
+	meta("C03", "fault_enumeration", crashTech+"recovered dump must equal an allowed prefix state, and the recovered database must stay usable",
+		NontrivialRuleText["C03"], 1000, 40000,
+		[]string{"fault_process_crash_images", "fault_power_loss_images", "fault_torn_write_images", "images_ok", "usability_rounds", "rotations"},
+		"power loss loses a not-yet-synced tail of a file from the end only (no reordering inside the tail, no sector garbage)")
+	meta("C04", "fault_enumeration", crashTech+"a batch is one mutation of the prefix oracle, so a partial batch equals no allowed state",
+		NontrivialRuleText["C04"], 500, 20000,
+		[]string{"fault_process_crash_images", "fault_power_loss_images", "images_ok", "batches", "sync_batches", "rotations"},
+		"power loss loses a not-yet-synced tail of a file from the end only")
+	meta("C07", "fault_enumeration", crashTech+"two levels deep for Merge and adoption: every position of the recovery Open is crashed again, then a clean Open",
+		NontrivialRuleText["C07"], 300, 12000,
+		[]string{"fault_process_crash_images", "fault_second_crash_images", "images_ok", "merges", "reopen_after_recovery"},
+		"process crash only (the property says 'the process dies')")
 	meta("C05", "exploration", seqTech+"layered overlay model for an open batch",
 		NontrivialRuleText["C05"], 12000, 400000,
 		[]string{"batches", "batch_repeat_key", "batch_put_then_delete", "batch_get_from_db", "rotations"})
